@@ -32,6 +32,11 @@ def gen_cases(rng, tier):
             cases.append({'kind': 'kern', 'norb': norb, 'na': na, 'nb': nb, 'op': op, 'seed': rng.randrange(10 ** 6)})
     if tier == 'quick':
         cases = [c for c in cases if not (c['op'] in ('apply_r3', 'rdm3') and c['norb'] > 5)]
+        # rows / columns longer than one 450-element batch also in the quick tier (column kernels of the orbital
+        # rotation, ZAXPY batches of the dense apply)
+        for norb, na, nb in ((11, 1, 5), (11, 5, 1)):
+            for op in ('evolve_quad', 'apply_r2', 'evolve_dc', 'evolve_diag'):
+                cases.append({'kind': 'kern', 'norb': norb, 'na': na, 'nb': nb, 'op': op, 'seed': rng.randrange(10 ** 6)})
     return cases
 
 
